@@ -82,6 +82,16 @@ def evaluate(mod, prop, tier, cfg, F, deps, th, with_floors):
     _lib.CURRENT_FACTS[0] = F
     try:
         mod.check(ctx)
+        if getattr(mod, 'USES_QUERIES', False):
+            # the property's rules read subject() / assertions() / case predicates / the predicate lookups as opaque atoms with their
+            # documented meaning; that meaning (the C15.5 / C15.6 tables) is part of what the property rests on
+            from .props import C15 as _C15
+            from .props.C07 import Relabel as _Relabel
+            _C15.check(_Relabel(ctx, prop + '.Q', ['C15.5', 'C15.6']))
+        if getattr(mod, 'USES_KNOWN_VALUES', False) and 'known_value' in F.features:
+            # the rules identify predicates by the NAME of the known-value constant; two constants sharing a code would be one predicate
+            from . import accessors as _acc
+            _acc.check_constant_registry(ctx, prop + '.K', kinds=('KnownValue',))
     except AnchorLost:
         pass
     except Exception as e:
